@@ -81,4 +81,53 @@ theorem mkGo_cur_no_panic (decode : Bytes → Option Annotation) (lines : List B
             intro h; injection h with h; subst h; exact this he
           · exact ih _ _ _ _ (by simp [ScanSt.Balanced])
 
+/-! ### script scanner -/
+
+theorem scriptHandle_no_panic (decode : Bytes → Option Annotation) (ls : List Bytes) (ns : List Nat)
+    (hlen : ls.length = ns.length) (hne : ls ≠ []) :
+    scriptHandle decode ls ns ≠ .error .indexPanic := by
+  have hns : ns ≠ [] := by
+    intro e; subst e; simp at hlen; exact hne hlen
+  obtain ⟨f, hf⟩ := idx_zero_ok hns
+  obtain ⟨l, hl⟩ := idx_last_ok hns
+  unfold scriptHandle
+  simp only [hl, bind, Except.bind]
+  split
+  · cases hd : decode (joinNL ls) with
+    | none => simp only [hf, throw, throwThe, MonadExceptOf.throw]; intro h; cases h
+    | some a => simp [pure, Except.pure]
+  · simp [pure, Except.pure]
+
+theorem scriptGo_no_panic (decode : Bytes → Option Annotation) (lines : List Bytes) :
+    ∀ (st : ScanSt) (n : Nat) (ann : Annotation), st.Balanced →
+      scriptGo decode st n lines ann ≠ .error .indexPanic := by
+  induction lines with
+  | nil => intro st n ann _; cases st <;> simp [scriptGo]
+  | cons l rest ih =>
+    intro st n ann hb
+    cases st with
+    | outside =>
+      simp only [scriptGo]
+      split
+      · exact ih _ _ _ (by simp [ScanSt.Balanced])
+      · exact ih _ _ _ (by simp [ScanSt.Balanced])
+    | inBlock ls ns =>
+      simp only [scriptGo]
+      split
+      · exact ih _ _ _ hb
+      · split
+        · exact ih _ _ _ (by simp [ScanSt.Balanced] at hb ⊢; exact hb)
+        · split
+          · exact ih _ _ _ (by simp [ScanSt.Balanced])
+          · rename_i hempty
+            have hne : ls.reverse ≠ [] := by
+              intro e; apply hempty; simpa using e
+            have hlen : ls.reverse.length = ns.reverse.length := by
+              simp [ScanSt.Balanced] at hb; simp [hb]
+            have := scriptHandle_no_panic decode ls.reverse ns.reverse hlen hne
+            split
+            · rename_i e he
+              intro h; injection h with h; subst h; exact this he
+            · exact ih _ _ _ (by simp [ScanSt.Balanced])
+
 end Grog.Loader
